@@ -51,6 +51,7 @@ class Norm:
         self._vguard = set()
         self._in_assume = False
         self.accessors = accessors        # also read through field accessors `T f() const { return <expr over fields>; }`
+        self.mark_post = None             # field names whose reads AFTER a write in this function are printed with a prime
 
     # ---- stripping ----------------------------------------------------------------------------------------------------
     def strip(self, n):
@@ -84,6 +85,79 @@ class Norm:
         return n
 
     _STABLE = {}
+    _POST = {}
+
+    def _clobbers(self, fields):
+        """nodes of self.f at which one of `fields` (qualified names) may be written: assigning operators, address-taking,
+        calls of non-const member functions on the owning object"""
+        from prog import access_kind
+        f = self.f
+        owners = {x.rsplit('::', 1)[0] for x in fields}
+        clob = []
+        for x in f.all_nodes():
+            r = x.get('ref') or {}
+            if r.get('k') in ('Field', 'Global', 'StaticMember') and r['n'] in fields and \
+                    access_kind(f, x) in ('write', 'rmw', 'addr', 'call'):
+                w = x
+                q = f.parent(w)
+                while q is not None and q['k'] in ('ArraySubscriptExpr', 'ImplicitCastExpr', 'MemberExpr', 'ParenExpr') and \
+                        kids(q) and (kids(q)[0] is w):
+                    w, q = q, f.parent(q)
+                if q is not None and q['k'] in ('BinaryOperator', 'CompoundAssignOperator') and kids(q)[0] is w and \
+                        (q.get('op') == '=' or q['k'] == 'CompoundAssignOperator'):
+                    w = q
+                clob.append(w)
+            c = x.get('callee')
+            if c and x['k'] == 'CXXMemberCallExpr' and not c.get('const') and c.get('n', '').rsplit('::', 1)[0] in owners:
+                obj = kids(kids(x)[0]) if kids(x) and kids(kids(x)[0]) else []
+                if not obj or self.strip(obj[0])['k'] == 'CXXThisExpr':
+                    prog_ = getattr(f, 'prog', None)
+                    g = prog_.funcs.get(c.get('fid')) if prog_ is not None else None
+                    if g is not None and g.body is not None:
+                        m = prog_.mods(g.id)
+                        if not any(fl in m for fl in fields):
+                            # the callee (transitively) writes none of these fields; a field of class type written through its
+                            # own member functions shows up as a 'call' access of that field in the callee
+                            continue
+                    clob.append(x)
+        return clob
+
+    def written_before(self, n, field):
+        """some write of `field` can execute before the read at node n (so the read sees a state the function has changed)"""
+        f = self.f
+        key = (f.id, n['i'], field)
+        if key in Norm._POST:
+            return Norm._POST[key]
+        res = False
+        try:
+            cfg = f.cfg
+            uid = {n['i']} | {a['i'] for a in f.ancestors(n)}
+            for cnode in self._clobbers({field}):
+                if f.inside(n, cnode):
+                    continue
+                pc = cfg.position(cnode)
+                if pc is None or cfg.path_avoiding(pc, set(), uid) is not None:
+                    res = True
+                    break
+        except Exception:
+            res = True
+        Norm._POST[key] = res
+        return res
+
+    def written_after(self, n, field):
+        """some write of `field` can still execute after the read at node n"""
+        f = self.f
+        try:
+            cfg = f.cfg
+            pn = cfg.position(n)
+            for cnode in self._clobbers({field}):
+                if f.inside(n, cnode):
+                    return True
+                if pn is None or cfg.path_avoiding(pn, set(), {cnode['i']} | {a['i'] for a in f.ancestors(cnode)}) is not None:
+                    return True
+        except Exception:
+            return True
+        return False
 
     def stable_between(self, d, use):
         """the memory that definition `d` reads is not written between the definition and the use, so that the definition may
@@ -496,6 +570,8 @@ class Norm:
                     b = self.s(ks[0])
                     base = '' if b in ('this', '*(this)') else b + '.'
                 out = base + short(r['n'])
+                if self.mark_post and short(r['n']) in self.mark_post and not base and self.written_before(n, r['n']):
+                    out += "'"
             elif r['k'] in ('Global', 'StaticMember', 'Enum', 'Func', 'Method'):
                 out = short(r['n'])
             elif r['k'] in ('Parm', 'Local'):
